@@ -8,7 +8,31 @@ import "math"
 
 type ival struct{ lo, hi int64 }
 
+type rmemo struct {
+	r  ival
+	ok bool
+}
+
+// rangeOf is memoised per path (bounds only tighten along a path, so a cached interval stays sound).
 func (e *Explorer) rangeOf(t *Term, depth int) (ival, bool) {
+	if t.w == 0 {
+		return ival{}, false
+	}
+	if t.isC() || t.op == "v" {
+		return e.rangeOf0(t, depth)
+	}
+	if _, ok := e.bounds[t]; ok {
+		return e.rangeOf0(t, depth)
+	}
+	if m, ok := e.rangeMemo[t]; ok {
+		return m.r, m.ok
+	}
+	r, ok := e.rangeOf0(t, depth)
+	e.rangeMemo[t] = rmemo{r, ok}
+	return r, ok
+}
+
+func (e *Explorer) rangeOf0(t *Term, depth int) (ival, bool) {
 	if t.w == 0 {
 		return ival{}, false
 	}
@@ -21,7 +45,7 @@ func (e *Explorer) rangeOf(t *Term, depth int) (ival, bool) {
 	if b, ok := e.bounds[t]; ok {
 		return b, true
 	}
-	if depth > 12 {
+	if depth > 20000 {
 		return e.defaultRange(t)
 	}
 	switch t.op {
